@@ -23,13 +23,17 @@ CLAIMED = {
         design="§7 C14"),
     "C15": dict(
         category="proof",
-        technique="Lean 4 proof over a model of unify/unify_all (uses C14 transitivity) + differential correspondence via hook",
+        technique="Lean 4 proof over a model of unify/unify_all (uses C14 transitivity) + differential correspondence via hook + program-level oracle at the checker's combination points",
         text="Proved for all types: unify(a,b)=Some c implies a<:c and b<:c; unify(a,a)=Some a; unify_all of n>=1 copies "
              "of a is a; unify_all(ts)=Ok c implies every t in ts is <: c for well-formed error-free ts. Model compared "
              "with the real unify/unify_all on ~40k pairs/lists per quick run; the real results are also judged by the "
              "real is_subtype (upper bound, idempotence) without the model.",
-        note=TB + "Call sites of unify/unify_all in the checker (list/dict literals, if, try, match) are not modelled; "
-             "the property is decided for the two combining functions every such site goes through.",
+        note=TB + "Call sites of unify/unify_all in the checker (list/dict literals, if, try, match) are not modelled: the "
+             "theorem is about the two combining functions every such site goes through. The sites themselves are judged "
+             "per input: for every ordered pair of 11 typed expressions and each of if/else, match over variants, match "
+             "with a `_` arm (either position) and list literal, a program passes the combined value where only one "
+             "arm's type is allowed and runs every arm: an accepted program must not raise a type error (a combined type "
+             "that does not cover an arm shows as exactly that). try/catch and dict literals are not exercised.",
         design="§7 C15"),
 
     "C04": dict(
